@@ -36,6 +36,9 @@ ASSUMPTIONS = ['a stream socket never returns more than asked, never reorders or
                'oracle: independent model over the remaining stream (what happens when the whole stream arrives at once)',
                'sizes passed to recv_size/peek/recv are >= 1; retries after Timeout / EWOULDBLOCK repeat the same call']
 
+REQUIRED_PROBES = ['delimiter_straddles_recv', 'size_met_at_recv_edge', 'timeout_with_partial_data',
+                   'ewouldblock_with_partial_data', 'message_too_long', 'partial_send', 'send_timeout_with_unsent',
+                   'ns_roundtrip_frames', 'timeout', 'send_timeout']
 su = None   # boltons.socketutils, set by setup()
 
 DELIMS = [b'|', b'\n', b'\r\n', b'||', b'\r\n\r\n', b'ab', b'aba', b'|a|', b'\r', b'a|']
